@@ -49,3 +49,11 @@ Definition table_ok (T : optable) : bool := forallb od_uniform T.
 (* the only operators with a delayed input are listed here; re-checked on the regenerated table *)
 Definition delayed_ops (T : optable) : list (string * delay) :=
   flat_map (fun d => match od_delay d with Some x => [(od_name d, x)] | None => [] end) T.
+
+(* tools/vlib.py coq_eval: indices and values of the non-zero verdict codes *)
+Fixpoint bad_from (n : N) (l : list N) : list (N * N) :=
+  match l with
+  | [] => []
+  | v :: r => if N.eqb v 0 then bad_from (n + 1) r else (n, v) :: bad_from (n + 1) r
+  end.
+Definition bad (l : list N) : list (N * N) := bad_from 0 l.
